@@ -19,10 +19,19 @@ var (
 	indexes   = []string{"memory", "leveldb", "kv", "sqlite"}
 	authModes = []string{"userpass:alice:secret", "basic:alice:secret", "token:c17tokenc17token", "userpass:alice:secret:vivify=onlyvivify"}
 	shares    = []string{"default", "/pub/share/", ""}
+	// tailscale auth modes: the requester is identified through the tsnet listener; on the
+	// ordinary listener of Part 2 no request has a tailnet origin, so all of them are unauthenticated
+	tailscaleModes = []string{"tailscale:full-access-to-tailnet", "tailscale:c17owner@example.com"}
 )
 
 func authKind(a string) string {
 	k, rest, _ := strings.Cut(a, ":")
+	if k == "tailscale" {
+		if rest == "full-access-to-tailnet" {
+			return "tailscale-tailnet"
+		}
+		return "tailscale-login"
+	}
 	if strings.Contains(rest, "vivify=") {
 		k += "+vivify"
 	}
@@ -71,6 +80,10 @@ func configs(thorough bool) []confSpec {
 		stealth = true
 		add("memory", "memory", true, "default", authModes[0])
 		add("memory", "memory", true, "", authModes[2])
+		stealth = false
+		for _, au := range tailscaleModes {
+			add("memory", "memory", true, "default", au)
+		}
 		return out
 	}
 	k := 0
@@ -97,12 +110,18 @@ func configs(thorough bool) []confSpec {
 	}
 	add("localdisk", "leveldb", true, "default", authModes[1])
 	add("diskpacked", "kv", false, "", authModes[0])
+	stealth = false
+	for i, au := range tailscaleModes {
+		add("memory", "memory", true, shares[i%len(shares)], au)
+		add("localdisk", "leveldb", i == 0, "", au)
+	}
 	return out
 }
 
 func part2(r *ev.Run) {
 	r.Assume("Part 2 servers are built in-process exactly as perkeepd does (serverinit.Load of a high-level config + InstallHandlers) and served over loopback TCP; the only change to the generated low-level config is that the index's sorted store is opened by the harness from the same sorted config and passed through, so that its rows can be dumped")
-	r.Assume("credential-requiring auth modes used: userpass:<u>:<p>, basic:<u>:<p>, token:<t>, userpass with vivify=; none has the +localhost option (localhost, devauth and userpass+localhost authenticate loopback clients and are excluded; tailscale needs a network)")
+	r.Assume("credential-requiring auth modes used: userpass:<u>:<p>, basic:<u>:<p>, token:<t>, userpass with vivify=; none has the +localhost option (localhost, devauth and userpass+localhost authenticate loopback clients and are excluded)")
+	r.Assume("tailscale:full-access-to-tailnet and tailscale:<login> identify the requester through the tsnet listener the request arrived on; a Part 2 server listens on an ordinary TCP socket (perkeepd accepts that combination), where no request can establish a tailnet origin, so in these two modes EVERY request is an unauthenticated one and must be refused on protected rows; there are no credentials to present, hence no authenticated phase and no store dump for these servers (cold-start phase and the full unauthenticated table only)")
 	r.Assume("the process token of pkg/auth is created lazily and handed out by discovery, the UI and the sync status page; the state 'never handed out yet' exists once per server process, so every Part 2 child starts with a cold-start phase: its first requests are the unauthenticated GET variants that need no knowledge of the token (none, empty/wrong Basic, empty/wrong Token header, Upgrade: websocket with no / an empty / a wrong authtoken) on every protected row, sent one at a time, token-carrying pages (root, ui, sync) last; only then does the harness authenticate, fetch discovery or ask pkg/auth for the token")
 	r.Assume("/debug/vars and /debug/pprof/ report server status (counters, goroutine dumps, command line) and are therefore required to refuse unauthenticated requests like their siblings /debug/goroutines, /debug/config and /debug/logs")
 	r.Assume("publish / scanning-cabinet app handlers need external binaries and cloud storages need a network: not constructible offline, not covered")
@@ -223,7 +242,9 @@ func part2(r *ev.Run) {
 	if os.Getenv("VERIF_ONLY") != "" {
 		return // a replay runs one configuration; coverage requirements apply to full runs only
 	}
-	r.Require("auth_modes", "userpass", "basic", "token")
+	r.Require("auth_modes", "userpass", "basic", "token", "tailscale-tailnet", "tailscale-login")
+	r.Require("no_tailnet_origin", "tailscale-tailnet/storage", "tailscale-tailnet/root", "tailscale-tailnet/status", "tailscale-tailnet/search", "tailscale-tailnet/jsonsign",
+		"tailscale-tailnet/sync", "tailscale-tailnet/ui", "tailscale-tailnet/debug", "tailscale-login/storage", "tailscale-login/root", "tailscale-login/status")
 	r.Require("methods", "GET", "HEAD", "POST", "PUT", "DELETE")
 	r.Require("credential_variants", "none", "wrong-basic", "wrong-token", "empty-basic", "wronguser-rightpass", "rightuser-empty-pass", "truncated-token",
 		"ws-upgrade-empty-token", "ws-upgrade-wrong-token", "ws-upgrade-no-token", "empty-token-header")
